@@ -86,6 +86,7 @@ def run_verify_family(ctx, quick_n, thorough_n, lookups=False, want=('lib', 'kee
     n2 = thorough_n[1] if thorough else quick_n[1]
     args = [(ctx.seed, i, {'lookups': lookups, 'want': want}) for i in range(n2)]
     out = core.pool_map(drv_verify.one_scenario, args)
+    out += core.pool_map(drv_verify.alias_family, [(ctx.seed, i, {'want': want}) for i in range(max(n2 // 5, 60))])
     if ctx.pid == 'C01':
         # directed family for the last_mtime clause (sub-second distances around last_mtime)
         out += core.pool_map(drv_verify.last_mtime_family, [(ctx.seed, i, {}) for i in range(max(n2 // 2, 120))])
@@ -539,7 +540,11 @@ def c05(ctx):
         ctx.mc('MC_Refresh', cfg, expect_violation=inv, coverage=False)
     if gpgenv.have_gpg():
         from . import drv_refresh as dr
-        behs = _export(ctx, 'MC_Refresh', 'MC_Refresh.cfg', [], sample=(6000 if thorough else 480), rng=rng)
+        allb = _export(ctx, 'MC_Refresh', 'MC_Refresh.cfg', [])
+        nb = 6000 if thorough else 480
+        # a fifth of the sample from the corner where WKD cannot refresh every key (a key without mail address)
+        corner = [b for b in allb if not b['mail']['B'] and b['ring0']['B'] != 'absent' and b['wkd'] and b['req']]
+        behs = rng.sample(corner, min(len(corner), nb // 5)) + rng.sample(allb, min(len(allb), nb - nb // 5))
         mat = dr.build_material()
         for k, b in enumerate(behs):
             b['cli'] = (k % 3 == 0)
